@@ -21,6 +21,7 @@ EXPLANATION = (
     "sample count by floor division of the data length, so a torn trailing sample is ignored; (O7) what each iteration writes is "
     "exactly the block just computed, a whole number of output samples (C07's written-slice rules). Together these give: "
     "after every write the file is header + prefix of the final data section."
+    ' Since wave 6: O7 also re-evaluates C07.R4 for downsample (no decimation group straddles a gulp) and C04.R1 (the writer writes exactly the array it was given, converted).'
 )
 TECHNIQUE = "static analysis: who-may-call + CFG dominance (must-pass-through) + effect ordering over the call graph"
 
